@@ -1,6 +1,7 @@
 package util
 
 import (
+	"io"
 	"os"
 	"path/filepath"
 	"sort"
@@ -72,13 +73,45 @@ func UnlinkFileAt(dir *os.File, filename string) error {
 	return unix.Unlinkat(int(dir.Fd()), filename, 0)
 }
 
+// TempFileSuffix is appended to the name of a file while it's being written by WriteFileAt
+const TempFileSuffix = ".tmp"
+
 // WriteFileAt writes to a new file in given directory
+//
+// The data is written to a temporary file, which is renamed to the given name only after everything has been written,
+// so a file of the given name is never incomplete, even if writing fails half way or the process is killed.
 func WriteFileAt(dir *os.File, filename string, data []byte, perm os.FileMode) error {
-	fd, oerr := unix.Openat(int(dir.Fd()), filename, unix.O_WRONLY|unix.O_CREAT|unix.O_TRUNC, uint32(perm))
+	dirFd := int(dir.Fd())
+	tmpname := filename + TempFileSuffix
+	fd, oerr := unix.Openat(dirFd, tmpname, unix.O_WRONLY|unix.O_CREAT|unix.O_TRUNC, uint32(perm))
 	if oerr != nil {
 		return oerr
 	}
-	_, werr := unix.Write(fd, data)
-	unix.Close(fd)
+	werr := writeAll(fd, data)
+	if cerr := unix.Close(fd); werr == nil {
+		werr = cerr
+	}
+	if werr == nil {
+		werr = unix.Renameat(dirFd, tmpname, dirFd, filename)
+	}
+	if werr != nil {
+		_ = unix.Unlinkat(dirFd, tmpname, 0)
+	}
 	return werr
+}
+
+func writeAll(fd int, data []byte) error {
+	for len(data) > 0 {
+		n, werr := unix.Write(fd, data)
+		switch {
+		case werr == unix.EINTR:
+			continue
+		case werr != nil:
+			return werr
+		case n <= 0:
+			return io.ErrShortWrite
+		}
+		data = data[n:]
+	}
+	return nil
 }
